@@ -93,9 +93,31 @@ class DataDir:
                             data = (int.from_bytes(data, 'little') ^ int.from_bytes(kk[:len(data)], 'little')).to_bytes(len(data), 'little')
                     f.seek(at)
                     f.write(data)
+        amb = os.environ.get('RBP_VERIF_NO_AMBIENT') is None
+        hsh = hashlib.md5(self.path.encode()).digest()
         if xor_key is not None:
-            with open(os.path.join(self.path, 'xor.dat'), 'wb') as f:
+            # xor.dat may itself be a symbolic link (data directories assembled with `ln -s`), relative or absolute
+            how = hsh[9] % 3 if amb else 0
+            if how == 0:
+                target = os.path.join(self.path, 'xor.dat')
+            elif how == 1:
+                target = os.path.join(self.path, 'k')
+                os.symlink('k', os.path.join(self.path, 'xor.dat'))
+            else:
+                target = self.path.rstrip('/') + '.the-real-obfuscation-key-file-lives-outside-the-data-directory'
+                os.symlink(target, os.path.join(self.path, 'xor.dat'))
+            with open(target, 'wb') as f:
                 f.write(xor_key)
+        if amb and hsh[10] % 4 == 0:
+            # a leftover copy of another node's blocks folder inside this one: sub-directories are named by no record
+            sub = os.path.join(self.path, 'blocks')
+            os.makedirs(sub)
+            fb = mk_block(hsh * 2, [btc.coinbase(0, btc.p2pkh(hsh[:20]))], nonce=7)
+            with open(os.path.join(sub, 'blk00000.dat'), 'wb') as f:
+                f.write(struct.pack('<II', self.magic, len(fb['raw'])) + fb['raw'])
+            write_leveldb(os.path.join(sub, 'index'), [(b'b' + fb['hash'], btc.index_record(1, 0, ACTIVE, 1, 0, 8, 0, fb['hdr']))])
+        elif amb and hsh[10] % 4 == 1:
+            os.makedirs(os.path.join(self.path, 'blocks', 'index'))
         for nm, data in self.extra_files.items():
             with open(os.path.join(self.path, nm), 'wb') as f:
                 f.write(data)
